@@ -44,26 +44,48 @@ Proof.
 Qed.
 Print Assumptions C06_accept_newer.
 
-(* a required output that is missing keeps the gate closed (non-balanced publisher) *)
+(* a required output that is missing keeps the gate closed (non-balanced publisher): when the gate opens every required
+   output is in the client table AS IT STANDS AFTER THE REQUEST - connected, and not among the clients that this very request
+   evicted for having been silent longer than the connection timeout.  (On the pinned code the required outputs were looked up
+   before the eviction, so the request that evicts a required output opened the gate once more: one frame went out without it.
+   Shown on the real code with real zmq, repaired by 0e63164.) *)
 Theorem C06_required_output_waited_for :
   forall s f o q s1 f1 o1 r,
     on_request s f o q = (s1, f1, o1, r) -> r = PrTrue -> MSG_ID_SPECIAL < q_mid q ->
     s_balance s = false -> sf_do_send f1 = true ->
-    forall req, In req (s_required s) ->
-      exists c, In c (put_client {| c_cid := q_cid q; c_uid := q_uid q; c_out := o; c_tlast := s_now s / 1000000;
-                                    c_requested := true; c_eph := q_eph q; c_prev := q_mid q |} (clients s))
-                /\ c_cid c = req.
+    forall req, In req (s_required s) -> exists c, In c (clients s1) /\ c_cid c = req.
 Proof.
   unfold on_request. intros s f o q s1 f1 o1 r E Hr Hsp Hb Hd req Hreq.
   replace (q_mid q <=? MSG_ID_SPECIAL) with false in E by (symmetry; apply Z.leb_gt; exact Hsp).
   destruct (negb (has_client _ _ _) && s_handshake s && q_new q); [inversion E; subst; discriminate|].
   destruct ((sf_msg_id f <=? q_mid q) && (q_eph q =? 0)); [inversion E; subst; discriminate|].
   rewrite Hb in E. destruct (scan false _ _ _ _ _) as [[cl' ds1] outs] eqn:Es. inversion E; subst; clear E.
-  cbn in Hd. destruct (scan_do_send _ _ _ _ _ _ _ _ Es Hd) as [H0 _].
+  cbn in Hd. apply andb_true_iff in Hd as [_ H0].
   rewrite forallb_forall in H0. specialize (H0 req Hreq). apply existsb_exists in H0 as (c & Hc & He).
   exists c. split; [exact Hc|apply Z.eqb_eq; exact He].
 Qed.
 Print Assumptions C06_required_output_waited_for.
+
+(* ... and when a required output LEAVES by CLOSE - after the request that had completed the set - the decision to publish leaves
+   with it: the gate is closed again until it is back (on the pinned code do_send stayed as it was and the frame went out to the
+   remaining consumers without it; repaired by the second "required output" fix) *)
+Theorem C06_required_output_close_closes_gate :
+  forall s f o q,
+    q_mid q = MSG_ID_CLOSE -> has_client (q_cid q) (q_uid q) (clients s) = true ->
+    In (q_cid q) (s_required s) ->
+    (forall c, In c (del_client (q_cid q) (q_uid q) (clients s)) -> c_cid c <> q_cid q) ->      (* its last connection *)
+    let '(s1, f1, o1, r) := on_request s f o q in
+    sf_do_send f1 = false /\ clients s1 = del_client (q_cid q) (q_uid q) (clients s) /\ o1 = [] /\ r = PrTrue.
+Proof.
+  intros s f o q Hm Hc Hreq Hlast. unfold on_request. rewrite Hm. cbn [Z.leb Z.eqb Z.compare MSG_ID_CLOSE MSG_ID_SPECIAL MSG_ID_OOB Pos.compare Pos.compare_cont Pos.eqb CompOpp].
+  rewrite Hc. cbn [andb sf_do_send clients with_clients].
+  assert (E1 : existsb (Z.eqb (q_cid q)) (s_required s) = true) by (apply existsb_exists; exists (q_cid q); split; [exact Hreq|apply Z.eqb_refl]).
+  assert (E2 : existsb (fun c => c_cid c =? q_cid q) (del_client (q_cid q) (q_uid q) (clients s)) = false).
+  { destruct (existsb (fun c => c_cid c =? q_cid q) (del_client (q_cid q) (q_uid q) (clients s))) eqn:E; [|reflexivity].
+    apply existsb_exists in E as (c & Hin & Heq). apply Z.eqb_eq in Heq. exfalso. exact (Hlast c Hin Heq). }
+  rewrite E1, E2. cbn [negb andb]. rewrite andb_false_r. repeat split; reflexivity.
+Qed.
+Print Assumptions C06_required_output_close_closes_gate.
 
 (* no lost registration (the receiver-local half of deadlock freedom): in a non-balanced receiver a source is outside the
    poller ONLY while it holds a complete set; whenever its set is discarded or replaced the source is (still or again)
@@ -82,7 +104,10 @@ Theorem C06_last_request_opens_gate :
     on_request s f o q = (s1, f1, o1, r) -> s_balance s = false -> MSG_ID_SPECIAL < q_mid q ->
     (has_client (q_cid q) (q_uid q) (clients s) = true \/ s_handshake s = false \/ q_new q = false) ->
     (q_mid q < sf_msg_id f \/ q_eph q <> 0) ->
-    (forall r0, In r0 (s_required s) -> exists x, In x (put_client (req_client s o q) (clients s)) /\ c_cid x = r0) ->
+    (forall r0, In r0 (s_required s) ->
+       exists x, In x (put_client (req_client s o q) (clients s)) /\ c_cid x = r0 /\
+                 forall y, In y (put_client (req_client s o q) (clients s)) -> c_tlast y <? s_now s / 1000000 - CONN_TIMEOUT = true ->
+                           same_client (c_cid y) (c_uid y) x = false) ->
     (forall x, In x (put_client (req_client s o q) (clients s)) -> c_tlast x <? s_now s / 1000000 - CONN_TIMEOUT = false ->
                c_eph x = 0 -> c_requested x = true) ->
     sf_do_send f1 = true /\ r = PrTrue.
